@@ -2,6 +2,7 @@
 //! One binary per property lives in src/bin/cXX.rs and calls `run_cases(run)`.
 pub mod sexp;
 pub mod bbi;
+pub mod bed;
 pub use sexp::{a, S};
 
 use std::io::{BufRead, Write};
